@@ -175,6 +175,7 @@ func runC12(src sim.Source, o Opts) *Result {
 		CloneLate bool // shape clone: the clone is taken after the response was written, then the original's headers change
 		MutReq    bool // with CloneLate: the live request's URL and headers are then rewritten in place
 		CW        bool // any shape: the handler (route or special) also takes a CloneWith copy, as a writer-wrapping middleware would
+		CWSame    bool // ... with the writer and request the context already carries
 		NoQuery bool // the request has no query string; its handler writes a value of its own into QueryParams()
 		Var     int  // generated routes: which parameters take a value that is also a static text (drives backtracking)
 	}
@@ -182,7 +183,7 @@ func runC12(src sim.Source, o Opts) *Result {
 	plans := make([][]reqPlan, nclients)
 	for c := range plans {
 		for i, n := 0, 2+src.Intn("nreq", 6); i < n; i++ {
-			plans[c] = append(plans[c], reqPlan{Shape: sim.Pick(src, "shape", shapes), Route: src.Intn("route", len(routes)), Yields: src.Intn("yields", 3), Rerange: src.Intn("rerange", 3) == 0, NoQuery: src.Intn("noquery", 4) == 0, CloneLate: sim.Bool(src, "clonelate"), MutReq: sim.Bool(src, "mutreq"), CW: src.Intn("alsoclonewith", 4) == 3, Var: sim.Pick(src, "pvar", []int{0, 0, 1, 2, 3, 5, 6, 7})})
+			plans[c] = append(plans[c], reqPlan{Shape: sim.Pick(src, "shape", shapes), Route: src.Intn("route", len(routes)), Yields: src.Intn("yields", 3), Rerange: src.Intn("rerange", 3) == 0, NoQuery: src.Intn("noquery", 4) == 0, CloneLate: sim.Bool(src, "clonelate"), MutReq: sim.Bool(src, "mutreq"), CW: src.Intn("alsoclonewith", 4) == 3, CWSame: src.Intn("clonewithsame", 3) == 2, Var: sim.Pick(src, "pvar", []int{0, 0, 1, 2, 3, 5, 6, 7})})
 		}
 	}
 	withWriter := src.Intn("writer", 2) == 1
@@ -362,9 +363,17 @@ func runC12(src sim.Source, o Opts) *Result {
 					if pl.Shape == "clonewith" || (pl.CW && pl.Shape != "hijack") {
 						req2 := world.NewRequest(method, host, path, "", "tok="+tok, nil)
 						req2.Header.Set("X-Token", tok)
-						rw := world.NewRW(world.NewConn())
+						var rw fox.ResponseWriter = world.NewRW(world.NewConn())
+						if pl.CWSame && wantQTok == tok {
+							// a generic middleware that only sometimes substitutes something: the copy is asked for with the
+							// writer and request the context already has - and is still a copy, closed on its own
+							req2, rw = c.Request(), c.Writer()
+						}
 						cc := c.CloneWith(rw, req2)
-						if cc.Request() != req2 || cc.Writer() != fox.ResponseWriter(rw) {
+						if fox.Context(cc) == c {
+							fail("request %s: CloneWith returned the context it was called on", tok)
+						}
+						if cc.Request() != req2 || cc.Writer() != rw {
 							fail("request %s: CloneWith does not carry the given request and writer", tok)
 						}
 						if a, b := world.FmtParams(world.CollectParams(cc)), world.FmtParams(world.CollectParams(c)); a != b || cc.Pattern() != c.Pattern() || cc.Scope() != c.Scope() {
